@@ -4,6 +4,7 @@ SPECIFICATION Spec
 CONSTANTS
   MaxLen = 4
   Ns = {0,1,2,3,4}
+  MaxHalf = 1
   Blocks = {1,2,3}
   CtxSets = {{"cuda"}, {"cpu_serial","opencl"}, {"cpu_openmp"}}
   IncFa = {{"cuda","cpu_openmp"}}
